@@ -863,9 +863,10 @@ fn cmd_check(a: &Args) -> i32 {
             known_findings_matched: known_matched,
             determinism: det,
             exhaustive_note: format!(
-                "enumerated completely: (a) every builder call chain of <= {} setters over the {}-symbol alphabet, cut at the first rejected call, with solve() after every accepted prefix, for 7 builders x {{Const<1>,Const<2>,Const<3>,Dyn}} x {{f64,Complex<f64>}} and both constructors; (b) all 5040 orders of the 7 setters of a complete configuration in 2 variants for the same 56 builders; (c) the complete configuration in 3 orders with up to {} extra calls inserted; (d) for each of {} fault-grid groups whose reference run has <= {} derivative calls: a failing call at every k in 1..=N+1, as a transient and as a permanent fault. Sampled: k for longer reference runs, burst/scattered plans, swarm runs.",
+                "enumerated completely: (a) every builder call chain of <= {} setters over the {}-symbol alphabet, cut at the first rejected call, with solve() after every accepted prefix, and every accepted chain of <= {} setters additionally completed with canonical valid values and built, for 7 builders x {{Const<1>,Const<2>,Const<3>,Dyn}} x {{f64,Complex<f64>}} and both constructors; (b) all 5040 orders of the 7 setters of a complete configuration in 2 variants for the same 56 builders; (c) the complete configuration in 3 orders with up to {} extra calls inserted; (d) for each of {} fault-grid groups whose reference run has <= {} derivative calls: a failing call at every k in 1..=N+1, as a transient and as a permanent fault. Sampled: k for longer reference runs, burst/scattered/domain plans, swarm runs.",
                 plan.maxlen,
                 alphabet.len(),
+                plan.maxlen - 1,
                 plan.ins_extras,
                 total.ref_exhaustive_groups,
                 plan.ftier.exhaustive_cap
